@@ -304,6 +304,74 @@ def _in_struct_literal(toks, q):
     return False
 
 
+
+def _find_seq(hay, needle):
+    n = len(needle)
+    for i in range(len(hay) - n + 1):
+        if hay[i:i + n] == needle:
+            return i
+    return -1
+
+
+def uninvert_if_else(code1, template_texts):
+    """`if !C { A } else { B }` in the source where the contract was written against `if C { B' } else { A' }` (same condition
+    tokens) is put back into that form: `if C { B } else { A }`; likewise `if X == Y {A} else {B}` against `if X != Y {..} else {..}`
+    (and the reverse).  Both are the same statement; the contract's hints sit in the branches, so the branches must line up."""
+    out = list(code1)
+    count = 0
+    i = 0
+    while i < len(out):
+        if out[i].kind == "id" and out[i].text == "if" and (i == 0 or out[i - 1].text != "else") and i + 1 < len(out) and out[i + 1].text != "let":
+            # condition: up to the `{` at depth 0
+            j = i + 1
+            depth = 0
+            while j < len(out):
+                tx = out[j].text
+                if tx in ("(", "["):
+                    depth += 1
+                elif tx in (")", "]"):
+                    depth -= 1
+                elif tx == "{" and depth == 0:
+                    break
+                j += 1
+            if j >= len(out):
+                break
+            try:
+                c1 = match_close(out, j)
+            except (ValueError, IndexError):
+                i += 1
+                continue
+            if c1 + 2 < len(out) and out[c1 + 1].text == "else" and out[c1 + 2].text == "{":
+                c2 = match_close(out, c1 + 2)
+                cond = out[i + 1:j]
+                ct = [t.text for t in cond]
+                new_cond = None
+                if ct and ct[0] == "!":
+                    inner = cond[1:]
+                    it = [t.text for t in inner]
+                    if it and it[0] == "(" and match_close(inner, 0) == len(inner) - 1:
+                        inner = inner[1:-1]
+                        it = it[1:-1]
+                    if _find_seq(template_texts, ["if"] + it + ["{"]) >= 0 and _find_seq(template_texts, ["if", "!"] + it + ["{"]) < 0:
+                        new_cond = inner
+                else:
+                    for a_op, b_op in (("==", "!="), ("!=", "==")):
+                        idxs = [k for k, t in enumerate(ct) if t == a_op]
+                        if len(idxs) == 1 and "&&" not in ct and "||" not in ct:
+                            flipped = ct[:idxs[0]] + [b_op] + ct[idxs[0] + 1:]
+                            if _find_seq(template_texts, ["if"] + flipped + ["{"]) >= 0 and _find_seq(template_texts, ["if"] + ct + ["{"]) < 0:
+                                new_cond = [Tok(t.kind, (b_op if k == idxs[0] else t.text), t.line, t.sp, t.off) for k, t in enumerate(cond)]
+                            break
+                if new_cond is not None:
+                    new_cond = [Tok(t.kind, t.text, t.line, True if k == 0 else t.sp, t.off) for k, t in enumerate(new_cond)]
+                    b1 = out[j:c1 + 1]
+                    b2 = out[c1 + 2:c2 + 1]
+                    out[i + 1:c2 + 1] = list(new_cond) + b2 + [out[c1 + 1]] + b1
+                    count += 1
+        i += 1
+    return out, count
+
+
 def merge(code0, anns, code1):
     """Insert annotation chunks (anchored in code0) into code1 by token alignment.
     Returns list of (origin, tok) with origin 'src' or 'ann'; and drift = #tokens differing."""
@@ -670,6 +738,10 @@ class Unit:
                 anns[0] = (0, lead + anns[0][1])
             else:
                 anns.insert(0, (0, lead))
+        code1, ninv = uninvert_if_else(code1, texts(code0))
+        if ninv:
+            DRIFT_LOG.append("%d inverted if/else put back into the contract's orientation" % ninv)
+            reg.renamed = dict(getattr(reg, "renamed", {}), **{"(if/else inversions undone)": str(ninv)})
         merged, drift = merge(code0, anns, code1)
         reg.drift = drift
         # Loops of extracted functions are verified WITHOUT loop isolation: the facts established before a loop (bounds bound to
